@@ -267,10 +267,12 @@ class Machine(Node):
         duration = simulation_end_time- self.stats["last_state_change_time"]
         # updating the time of per thread statescld
         for procs in self.worker_thread_list:
+            # a thread has been in its state since it entered it, which can be earlier than the machine's last state change
+            thread_duration = simulation_end_time - getattr(procs, "thread_state_start_time", self.stats["last_state_change_time"])
             if procs.thread_state == "PROCESSING_STATE":
-                self._update_avg_time_spent_in_processing(duration)
+                self._update_avg_time_spent_in_processing(thread_duration)
             elif procs.thread_state == "BLOCKED_STATE":
-                self._update_avg_time_spent_in_blocked(duration)
+                self._update_avg_time_spent_in_blocked(thread_duration)
         #checking threadstates and updating the machine state
         #print(f"Final update of state_rep for machine {self.id} at time {simulation_end_time} {self.state_rep}")
         self._update_worker_occupancy("UPDATE")
@@ -500,6 +502,7 @@ class Machine(Node):
             #1self.check_thread_state_and_update_machine_state()  # Check and update the machine state based on worker states
             self.update_state_rep(self.env.now)
             processing_start_time = self.env.now
+            self.env.active_process.thread_state_start_time = self.env.now  # used when the statistics are finalised mid-way
             #wait for processing_delay amount of time
             yield self.env.timeout(processing_delay)
             #self.stats["num_item_processed"] += 1
@@ -515,6 +518,7 @@ class Machine(Node):
                     #self.check_thread_state_and_update_machine_state()
                     self.update_state_rep(self.env.now)
                     blocking_start_time = self.env.now
+                    self.env.active_process.thread_state_start_time = self.env.now
                 
                    
                     #out_edge_events = [self.out_edges[i].inbuiltstore.reserve_put() for i in range(len(self.out_edges)-1,-1,-1)]
@@ -570,6 +574,7 @@ class Machine(Node):
                     
                     if out_edge_index_to_put is not None:
                          blocking_start_time = self.env.now
+                         self.env.active_process.thread_state_start_time = self.env.now
                          #self.check_thread_state_and_update_machine_state()
                          self.update_state_rep(self.env.now)
                          self.env.active_process.thread_state = "BLOCKED_STATE"  # Update the thread state to PROCESSING_STATE BLOCKING
@@ -607,6 +612,7 @@ class Machine(Node):
                 self.update_state_rep(self.env.now)
                 if self.blocking:
                     blocking_start_time = self.env.now
+                    self.env.active_process.thread_state_start_time = self.env.now
                     print(f"T={self.env.now:.2f}: {self.id} worker is in BLOCKED_STATE")
                     #yield self.env.process(self._push_item(item, outedge_to_put))
                     put_event=outedge_to_put.reserve_put()
@@ -624,6 +630,7 @@ class Machine(Node):
                     # Check if the out_edge can accept the item
                     if outedge_to_put.can_put():
                         blocking_start_time = self.env.now
+                        self.env.active_process.thread_state_start_time = self.env.now
                         yield self.env.process(self._push_item(item, outedge_to_put))
                         self.stats["num_item_processed"] += 1
                         print(f"T={self.env.now:.2f}: {self.id} worker puts item {item.id} into {outedge_to_put.id} ")
